@@ -48,6 +48,7 @@ R = {
    "missed at first: the unequal partner of a value was a random neighbour (one tape byte changed), never a re-association of the value's own parts. `mk_neighbour` builds, from the same tape, the map with the values of two keys swapped."),
  "C15b-encode-session-keyed-by-hash-only": ("C15", ["C15 quick: VIOLATION (fresh interner: decode panicked: referenced interned value not found)"],
    "missed at first: no generated structure held handles of two types with equal hash streams and equal contents. `Interned<str>` now draws from the texts of the `Interned<String>` handles, and `Interned<u32>` / `Interned<Wrap(u32)>` were added to the structure."),
+ "C16b-poll-trim-stops-at-pinned-tail": ("C16", ["C16 quick: VIOLATION (22 s, quiescent residency bound under Poll)"], "caught as built (second change for C16; relies on the pinned writes and the longer quiescent phase added for the first one)"),
 }
 rows = []
 for sid, (prop, ran, note) in R.items():
